@@ -1,0 +1,34 @@
+# Verification instrumentation (observation only). Inactive unless OPENCYPHAL_PYDSDL_VERIF=1 is set in the environment
+# when the package is imported; with the guard off every call site reduces to one attribute test.
+#
+# Events are dictionaries {"seq": n, "ev": name, ...}; they are appended to an in-memory list (drain() returns and
+# clears it) and, if OPENCYPHAL_PYDSDL_VERIF_TRACE names a file, also written there as one JSON object per line.
+
+import os
+import json
+import typing
+
+ENABLED = os.environ.get("OPENCYPHAL_PYDSDL_VERIF", "") == "1"
+
+_events: typing.List[typing.Dict[str, typing.Any]] = []
+_seq = 0
+_sink_path = os.environ.get("OPENCYPHAL_PYDSDL_VERIF_TRACE", "") if ENABLED else ""
+_MAX_BUFFER = 2_000_000
+
+
+def emit(ev: str, **fields: typing.Any) -> None:
+    global _seq
+    _seq += 1
+    rec = {"seq": _seq, "ev": ev}
+    rec.update(fields)
+    if len(_events) < _MAX_BUFFER:
+        _events.append(rec)
+    if _sink_path:
+        with open(_sink_path, "a", encoding="utf8") as f:
+            f.write(json.dumps(rec, default=str) + "\n")
+
+
+def drain() -> typing.List[typing.Dict[str, typing.Any]]:
+    out = list(_events)
+    _events.clear()
+    return out
